@@ -54,6 +54,7 @@ inductive Op
   | changeState (i : Nat) (st : St)
   | clear
   | deleteAll
+  | lookup (i : Nat)              -- `GetApplication_instance( index )` for ANY index (also at and above the count)
   deriving Repr
 
 /-- result of an operation as the client sees it -/
@@ -61,6 +62,7 @@ inductive R
   | unit
   | null                          -- `Append` returned 0
   | node (idx : Nat) (id : Int)   -- `Append` returned a node: its array index and file id
+  | found (h : Option Nat)        -- `GetApplication_instance( index )`: the instance at that index, or null
   | skipped                       -- outside the API contract; neither side executes it
   | crash                         -- the C++ would dereference a null/dangling pointer or double free
   deriving DecidableEq, Repr
@@ -207,6 +209,11 @@ def newInst (s : State) (h : Nat) (id : Int) (name : Nat) : State × R :=
   | some _ => (s, .skipped)
   | Option.none => ({ s with heap := fun k => if k = h then some ⟨id, name⟩ else s.heap k }, .unit)
 
+/-- `InstMgr::GetApplication_instance( index )` = `( *master )[index]`, tested for null.  `GenNodeArray::operator[]` calls
+`Check( index )` first, so a look-up at or beyond `_bufsize` grows the block; it never looks at `_count` -/
+def lookup (s : State) (i : Nat) : State × R :=
+  ({ s with bufsize := checkCap s.bufsize i }, .found ((s.nodes[i]?).map (·.inst)))
+
 def step (s : State) : Op → State × R
   | .newInst h id name => newInst s h id name
   | .append h st => append s h st
@@ -215,6 +222,7 @@ def step (s : State) : Op → State × R
   | .changeState i st => changeState s i st
   | .clear => clear s
   | .deleteAll => deleteAll s
+  | .lookup i => lookup s i
 
 def run (s : State) (ops : List Op) : State := ops.foldl (fun s op => (step s op).1) s
 
